@@ -287,9 +287,7 @@ def parse_dump(lines):
         if not m:
             continue
         vals = []
-        for tok in m.group(2).split(" "):
-            if tok == "":
-                continue
+        for tok in re.findall(r'"[^"]*"|\S+', m.group(2)):     # a quoted text may hold blanks
             if tok.startswith('"') or tok == "null":
                 vals.append(tok)
             else:
@@ -624,10 +622,11 @@ def judge(ck, hno, ops, rc, out, err, stats):
 
 IMPORTS = """From Coq Require Import Floats.
 From mathcomp Require Import ssreflect ssrfun ssrbool eqtype ssrnat seq.
-From LS Require Import NumOps F64Ops Containers.
+From LS Require Import NumOps F64Ops Containers Strings.
 Local Open Scope float_scope.
 """
 DEFS = """Definition T := true. Definition F := false.
+Definition split_okb (sep s : seq nat) (got : seq (seq nat)) : bool := split_string sep s == got.
 """
 MODELLED = {"new": "VNew", "init": "VInit", "del": "VDel", "resize": "VResize", "append": "VAppend", "remove": "VRemove",
             "extend": "VExtend", "set": "VSet", "get": "VGet", "fill": "VFill", "sort": "VSort"}
@@ -730,6 +729,7 @@ def run(ck, rng, tier):
         results = list(ex.map(lambda o: run_history(exe, o), hs))
     stats = {"sanitizer_reports": 0}
     nops = 0
+    nsplit = 0
     checks = vf.Checks()
     for hno, (ops, (rc, out, err)) in enumerate(zip(hs, results)):
         ck.case(("hist", hno, tuple(fmt_op(t) for t in ops)), sample={"history": hno, "length": len(ops), "first_ops": [fmt_op(t) for t in ops[:4]]} if hno % 25 == 0 else None)
@@ -745,6 +745,22 @@ def run(ck, rng, tier):
             ck.count("histories with NaN in a dvector (judged by the reference semantics only)")
         if not has_nan and all(x is not None for x in terms) and len(res) == len(ops) + 1 and len(ops) <= (60 if thorough else 45) and len(checks.items) < (60 if not thorough else 400):
             checks.add(hno, "history", "trace_ok (ops := F64Ops) [:: %s] %s" % ("; ".join(terms), coq_trace(res[:len(ops)])))
+        # SplitString: the pieces the library appended against the Coq model Exec/Strings.v (characters as codes)
+        for i, t in enumerate(ops):
+            if t[0] != "s_split" or i >= len(res) or res[i][1] != "ok" or nsplit >= (40 if not thorough else 300):
+                continue
+            name = "S%d" % int(t[1])
+            after = next((v for nm, v in res[i][3] if nm == name), None)
+            before = next((v for nm, v in res[i - 1][3] if nm == name), None) if i > 0 else None
+            if after is None:
+                continue
+            nb = int(before[0]) if before else 0
+            toks = re.findall(r'"([^"]*)"', " ".join(str(x) for x in after[1:]))[nb:]
+            dec = lambda t_: "" if t_ == "@" else str(t_).replace("_", " ").replace("~", "\t")
+            cs = lambda w: "[:: " + "; ".join("%d%%N" % ord(ch) for ch in w) + "]" if w else "[::]"
+            got = ("[:: " + "; ".join(cs(w) for w in toks) + "]") if toks else "[::]"
+            checks.add(hno, "split", "split_okb %s %s %s" % (cs(dec(t[3])), cs(dec(t[2])), got))
+            nsplit += 1
     if checks.items:
         failing, logs, cerr = vf.run_cases_v("c14", IMPORTS, DEFS, checks.items, shard=8, timeout=1200)
         if cerr:
